@@ -165,3 +165,25 @@ VARIANTS = [
     ("C20", L, "        HJTJ += 2*JTJ", "        HJTJ += JTJ", "R-SIGN"),
     ("C20", D, "        outFF = self._SAUtil.kronParam(J).dot(FF)", "        outFF = self._SAUtil.kronParam(J, pre=True).dot(FF)", "R-TERMS"),
 ]
+
+REFACTORINGS = [
+    ("C04", S, "                    if success==False:\n                        break\n                else:", "                    if not success:\n                        break\n                else:", None),
+    ("C04", ST, "    jumps=[0]*len(rates)\n    jumps[min_index]=1", "    jumps = [0] * len(rates)\n    jumps[min_index] = 1", None),
+    ("C06", L, "        self._observeT = t.copy()", "        self._observeT = np.copy(t)", None),
+    ("C07", L, "        num_sens =  self._num_state*self._num_param\n        init_state_sens", "        num_sens =  self._num_param*self._num_state\n        init_state_sens", None),
+    ("C07", L, "        grad = functools.reduce(np.add,map(np.dot, diff_loss, sens)).ravel()", "        grad = functools.reduce(np.add, [np.dot(d_, s_) for d_, s_ in zip(diff_loss, sens)]).ravel()", None),
+    ("C08", B, "            self._eventList.append(event)\n            self._hasNewTransition.trip()\n        elif isinstance(event, Transition):", "            self._hasNewTransition.trip()\n            self._eventList.append(event)\n        elif isinstance(event, Transition):", None),
+    ("C09", B, "                            index_temp = f(parameters[i][0])\n                            value_temp = parameters[i][1]\n                            param_out[index_temp] = value_temp", "                            name_i, value_i = parameters[i][0], parameters[i][1]\n                            param_out[f(name_i)] = value_i", None),
+    ("C10", ST, "                if x_new[i]<x_min or x_new[i]>x_max:", "                if x_min>x_new[i] or x_max<x_new[i]:", None),
+    ("C11", ST, "                if x_new[i]<x_min or x_new[i]>x_max:", "                if x_min>x_new[i] or x_max<x_new[i]:", None),
+    ("C11", ST, "        if x_lim != (None, None):", "        if not (x_lim[0] is None and x_lim[1] is None):", None),
+    ("C12", B, "            if t is TransitionType.B:", "            if t == TransitionType.B:", None),
+    ("C15", S, "            X_out[:,i]=hist            ", "            X_out[:, i] = hist", None),
+    ("C16", S, "        x = copy.deepcopy(self._x0)", "        x = self._x0.copy()", None),
+    ("C17", A, "            if w1:\n                # converting from log-scale and ensuring total population size is conserved\n                model_params = self._log_parameters(trial_params.copy())\n                par_update(model_params[self.par_order])\n                if hasattr(self,\"con_state\"): ", "            if w1 > 0:\n                # converting from log-scale and ensuring total population size is conserved\n                model_params = self._log_parameters(trial_params.copy())\n                par_update(model_params[self.par_order])\n                if hasattr(self,\"con_state\"): ", None),
+    ("C20", L, "                J += np.dot(s.T, s)", "                J += s.T.dot(s)", None),
+    ("C13", D, "        return np.append(out1, out2)\n\n    def ode_and_sensitivity_T", "        return np.append(np.asarray(out1), out2)\n\n    def ode_and_sensitivity_T", None),
+    ("C03", D, "                eqn, isDifficult = simplifyEquation(diff(ode[i], p, 1))\n                self._Grad[i,j] = eqn", "                d_ip = diff(ode[i], p, 1)\n                eqn, isDifficult = simplifyEquation(d_ip)\n                self._Grad[i,j] = eqn", None),
+    ("C02", U, "        solution.append(o1)\n    # finish integration", "        solution += [o1]\n    # finish integration", None),
+]
+VARIANTS += REFACTORINGS
